@@ -79,6 +79,21 @@ def may_be_visible(op):
 
 
 def crash_run(fsdbh, keytab, ops, nkeys, n, recovery_crash=None):
+    """one crash point; Badger's own files can be caught half-created by the kill (its crash consistency is an
+    assumption of DESIGN section 3, and the kill instant relative to Badger's background work is random): such a
+    run cannot be observed and is repeated"""
+    last = None
+    for attempt in range(4):
+        try:
+            return crash_run_once(fsdbh, keytab, ops, nkeys, n, recovery_crash)
+        except C.CheckBroken as ex:
+            last = ex
+            if "badger open" not in str(ex):
+                raise
+    return dict(n=n, crashed=False, unobservable=str(last)[:200])
+
+
+def crash_run_once(fsdbh, keytab, ops, nkeys, n, recovery_crash=None):
     base = tempfile.mkdtemp(prefix="verif-c04-")
     try:
         rc, out, err = run_child(fsdbh, keytab, ops, base, n)
@@ -114,6 +129,7 @@ def run(rep):
             workloads.insert(0, (ls[1], ls[2:-1]))
     total_points, checked, kinds, viol, rec_points = 0, 0, {}, 0, 0
     ev_mismatch = 0
+    unobservable = 0
     samples = []
     for keytab, ops in workloads:
         nkeys = len(keytab.split()) - 1
@@ -163,6 +179,8 @@ def run(rep):
                     for n in range(1, nev + 1)]
             results = [f.result() for f in futs]
         for r in results:
+            if r.get("unobservable"):
+                unobservable += 1
             if not r["crashed"]:
                 continue
             checked += 1
@@ -209,6 +227,7 @@ def run(rep):
              "operations, or after those plus the operation in flight when that is an autocommit write or a Commit; every crash "
              "point is a distinct non-trivial case",
         traces_validated_against_impl=checked, event_sequence_mismatches=ev_mismatch,
+        crash_points_unobservable_badger_open_failed=unobservable,
         samples=samples, proof_ok=proof_ok)
     rep.assumptions = ["process death (os.Exit), not power loss: Badger runs with SyncWrites=false and page-cache contents survive",
                        "every File.Write and Close of a content file is a crash point too (a torn content file without its records is invisible)",
